@@ -459,6 +459,23 @@ pub fn run(opts: &Opts) -> Report {
             if rng.chance(20) {
                 check_sequence(&mut rep, &w, *range, &["a", "b"], true);
                 check_sequence(&mut rep, &w, *range, &["a", "a"], false);
+                check_sequence(&mut rep, &w, *range, &["a", "b", "a"], true);
+                check_sequence(&mut rep, &w, *range, &["a", "a", "a", "b"], rng.chance(50));
+                // three to five fragments taken from the text itself (its alphabetic runs), consecutive or with one left out
+                let (rb, re_) = range.unwrap_or((0, n));
+                let cs: Vec<char> = text.chars().collect();
+                let mut toks: Vec<String> = vec![];
+                let mut cur = String::new();
+                for c in &cs[rb..re_] { if c.is_alphabetic() { cur.push(*c); } else if !cur.is_empty() { toks.push(std::mem::take(&mut cur)); } }
+                if !cur.is_empty() { toks.push(cur); }
+                if toks.len() >= 3 {
+                    let k = 3 + rng.below((toks.len() - 2).min(3));
+                    let start = rng.below(toks.len() - k + 1);
+                    let mut fr: Vec<&str> = toks[start..start + k].iter().map(|s| s.as_str()).collect();
+                    check_sequence(&mut rep, &w, *range, &fr, true);
+                    check_sequence(&mut rep, &w, *range, &fr, false);
+                    if rng.chance(40) { fr.remove(1); check_sequence(&mut rep, &w, *range, &fr, true); }
+                }
             }
             check_segmentation(&mut rep, &w, &known, *range);
         }
